@@ -301,6 +301,21 @@ def cases(rng, tier):
             if kb in (16, 32): out.append(mk(q * q, seed(), [], 'word-boundary', expected=False))
     for m in (2 ** 32 - 5, 2 ** 32 - 17, 2 ** 32 + 15, 2 ** 31 - 1, 65521 * 65537, 4294967291 * 4294967311, 2 ** 64 - 59, 2 ** 64 + 13):
         out.append(mk(m, seed(), [], 'word-boundary', expected=ref_prime(m)))
+    # 6c. sequences of calls answered by one thread: n, -n, n again, neighbours, repeated values (an answer remembered from an
+    # earlier call must not leak into a later one); decided by the deterministic reference
+    def o_seq(ns):
+        def orc(ia):
+            if ia.kind != 'ok' or not isinstance(ia.val, list) or len(ia.val) != len(ns): return 'is_prime sequence did not return: %s' % ia.raw[:100]
+            for n_, v_ in zip(ns, ia.val):
+                if v_ is not ref_prime(n_): return 'is_prime(%d) = %s inside the sequence %s' % (n_, v_, ns)
+            return None
+        return orc
+    import lib as _lib
+    for _ in range(40 if not th else 400):
+        q = rng.choice([7, 13, 1000003, 2 ** 31 - 1, 998244353, 65537, 561, 1105, 2047, 9, 25, 91])
+        ns = [q, -q, q, q + 2, -q, q * q, q, 1, q, 0, -1, q]
+        rng.shuffle(ns)
+        out.append(Case('is_prime_seq', line('is_prime_seq', ns, seed()), model=_lib.IMPL_ONLY, oracle=o_seq(ns), always_oracle=True, tag='call-sequences'))
     # 7. the consumer named by the property: ecm::factorize stops splitting exactly where is_prime says "prime". Perfect powers of
     # composites, prime powers, Carmichael numbers and their squares: every base reported must be prime and the product n
     # (same operation, model and oracle as C01; the model replays the logged draws)
@@ -310,7 +325,8 @@ def cases(rng, tier):
     for i, p in enumerate(sp):
         for q in sp[i + 1:i + 3]:
             cons += [(p * q) ** 2, (p * q) ** 3, p * p * q, (p * q) ** 2 * 2]
-    cons += [6 ** 2, 6 ** 3, 10 ** 4, 12 ** 2, 15 ** 4, 30 ** 3, 2 ** 10, 3 ** 7, 7 ** 5, 101 ** 3, 561, 561 ** 2, 1105, 1729, 1729 ** 2, 2821, 6601 * 6601, 2047, 2047 ** 2,
+    cons += [1009 * 1013, 1009 * 1009, 1013 * 1019, 1021 * 1031, 1031 * 1033, 8 * 1009 * 1021, 1209129096, 65537 * 65539,
+             6 ** 2, 6 ** 3, 10 ** 4, 12 ** 2, 15 ** 4, 30 ** 3, 2 ** 10, 3 ** 7, 7 ** 5, 101 ** 3, 561, 561 ** 2, 1105, 1729, 1729 ** 2, 2821, 6601 * 6601, 2047, 2047 ** 2,
              3215031751, 4 * 3215031751]
     for n in cons:
         if n < 2 ** 64:
